@@ -114,7 +114,7 @@ Theorem C17_recipe_spec : forall env cmd its, forallb ritem_ok its = true ->
 Proof. exact recipe_spec_holds. Qed.
 Print Assumptions C17_recipe_spec.
 
-Theorem C17_compress_spec : forall sw out recipe, gen_spec sw out recipe (gen_method sw out recipe) = true.
+Theorem C17_compress_spec : forall sw out recipe, Compress.gen_spec sw out recipe (gen_method sw out recipe) = true.
 Proof. exact gen_spec_holds. Qed.
 Print Assumptions C17_compress_spec.
 
